@@ -569,3 +569,140 @@ func init() {
 			return out
 		}})
 }
+
+// METASHARE — an element that shares the MetaData object of an operand is not modified and is not an output.
+//
+// `tmp.MetaData = ctIn.MetaData` makes a scratch element borrow the operand's metadata by pointer: fine as long as
+// the scratch element is only read. If the borrowing element is the operation's output, or if one of its metadata
+// fields is assigned afterwards, the operand's metadata changes with it (its scale is multiplied, its flags flip),
+// and both ciphertexts keep following each other. The value copy `*out.MetaData = *in.MetaData` is the safe form.
+// metaShareExempt: function -> reason. The lender is the function's own result there.
+var metaShareExempt = map[string]string{
+	"circuits/ckks/bootstrapping.(SecretKeyBootstrapper).Bootstrap": "re-encrypts ct in place and returns it: giving ct the fresh plaintext's scale is the purpose",
+}
+
+func scanMetaShare(c *core.Ctx) []ob {
+	var out []ob
+	n := 0
+	c.FuncDecls(func(pk *packages.Package, file *ast.File, fd *ast.FuncDecl) {
+		if fd.Body == nil || fileIsTestSupport(c.Program, fd.Pos()) || inExamples(pk) {
+			return
+		}
+		info := pk.TypesInfo
+		fkey := core.FuncKey(pk, fd)
+		params := map[types.Object]bool{}
+		if fd.Type.Params != nil {
+			for _, f := range fd.Type.Params.List {
+				for _, nm := range f.Names {
+					if o := info.Defs[nm]; o != nil {
+						params[o] = true
+					}
+				}
+			}
+		}
+		results := map[types.Object]bool{}
+		if fd.Type.Results != nil {
+			for _, f := range fd.Type.Results.List {
+				for _, nm := range f.Names {
+					if o := info.Defs[nm]; o != nil {
+						results[o] = true
+					}
+				}
+			}
+		}
+		ord := 0
+		ast.Inspect(fd.Body, func(x ast.Node) bool {
+			as, ok := x.(*ast.AssignStmt)
+			if !ok || len(as.Lhs) != len(as.Rhs) {
+				return true
+			}
+			for i, l := range as.Lhs {
+				ls, ok := unparen(l).(*ast.SelectorExpr)
+				if !ok || ls.Sel.Name != "MetaData" {
+					continue
+				}
+				rsel, ok := unparen(as.Rhs[i]).(*ast.SelectorExpr)
+				if !ok || rsel.Sel.Name != "MetaData" {
+					continue
+				}
+				if _, isPtr := info.TypeOf(l).(*types.Pointer); !isPtr {
+					continue
+				}
+				a, b := exprString(ls.X), exprString(rsel.X)
+				if a == b {
+					continue
+				}
+				ord++
+				n++
+				key := fmt.Sprintf("METASHARE:%s#%s<-%s", fkey, a, b)
+				props := metaProps(fkey)
+				why := ""
+				if id := rootIdent(ls.X); id != nil {
+					o := info.Uses[id]
+					if (params[o] && isOutParamName(id.Name)) || results[o] {
+						why = fmt.Sprintf("%s is an output of the operation", a)
+					}
+				}
+				if why == "" {
+					// a metadata field store on the borrowing element anywhere in the function
+					ast.Inspect(fd.Body, func(y ast.Node) bool {
+						as2, ok := y.(*ast.AssignStmt)
+						if !ok || why != "" {
+							return true
+						}
+						for _, l2 := range as2.Lhs {
+							l2 = unparen(l2)
+							if st, ok := l2.(*ast.StarExpr); ok {
+								if s2, ok := unparen(st.X).(*ast.SelectorExpr); ok && s2.Sel.Name == "MetaData" && exprString(s2.X) == a {
+									why = fmt.Sprintf("the metadata of %s is overwritten at %s", a, c.Rel(as2.Pos()))
+								}
+								continue
+							}
+							s2, ok := l2.(*ast.SelectorExpr)
+							if !ok || !metaFieldNames[s2.Sel.Name] {
+								continue
+							}
+							base := unparen(s2.X)
+							if s3, ok := base.(*ast.SelectorExpr); ok && s3.Sel.Name == "MetaData" {
+								base = s3.X
+							}
+							if exprString(base) == a && as2.Pos() > as.Pos() {
+								why = fmt.Sprintf("%s.%s is assigned at %s", a, s2.Sel.Name, c.Rel(as2.Pos()))
+							}
+						}
+						return true
+					})
+				}
+				if ex := metaShareExempt[fkey]; ex != "" && why != "" {
+					out = append(out, withProps(okOb("METASHARE", key, c.Rel(as.Pos()), "exempt: "+ex, false), props...))
+				} else if why == "" {
+					out = append(out, withProps(okOb("METASHARE", key, c.Rel(as.Pos()), "the borrowing element is a scratch element whose metadata is only read", true), props...))
+				} else {
+					out = append(out, withProps(violOb("METASHARE", key, c.Rel(as.Pos()), fmt.Sprintf("%s makes %s share the MetaData object of %s (pointer assignment) and %s: the metadata of %s changes with it", fkey, a, b, why, b)), props...))
+				}
+			}
+			return true
+		})
+	})
+	c.Stats["metashare_sites"] = n
+	return out
+}
+
+func init() {
+	all := []string{"C04", "C05", "C06", "C09", "C11", "C12", "C13", "C20"}
+	core.Register(&core.Rule{Name: "METASHARE", Props: all,
+		Doc: "an element that borrows an operand's MetaData by pointer (x.MetaData = y.MetaData) is neither an output of the function nor assigned a metadata field afterwards",
+		Run: func(c *core.Ctx) []ob {
+			out := scanMetaShare(c)
+			for i := range out {
+				out[i].Props = append(out[i].Props, "C09")
+			}
+			for _, o := range core.Floor("METASHARE", nil, "metadata pointer borrowings", c.Stats["metashare_sites"], 10) {
+				out = append(out, withProps(o, all...))
+			}
+			for _, o := range control(c, "METASHARE", scanMetaShare, "(fixEvaluator).Borrow") {
+				out = append(out, withProps(o, all...))
+			}
+			return out
+		}})
+}
